@@ -103,6 +103,47 @@ def scan(text, secrets):
     return hits
 
 
+def _randoms(res):
+    """(client_random, server_random) from the hello records the proxy saw, or None."""
+    cr = sr = None
+    px = res.get('proxy')
+    for i, d, rec in (px.records if px else []):
+        if rec[0] == 22 and len(rec) > 5 + 4 + 2 + 32:
+            if rec[5] == 1 and cr is None:
+                cr = bytes(rec[11:43])
+            elif rec[5] == 2 and sr is None:
+                sr = bytes(rec[11:43])
+    return (cr, sr) if cr and sr else None
+
+
+def pms_hits(text, master, randoms, sizes=(32, 48)):
+    """The pre-master secret is not kept in the connection object, so it is recognised by what it does: a window W of
+    the captured output (raw, or decoded from a run of hex digits) with PRF(W, "master secret", randoms) == master secret."""
+    from ..hostile_tlcp import prf
+    if not text or not master or not any(master) or randoms is None:
+        return []
+    seed = randoms[0] + randoms[1]
+    cands = [bytes(text)] if len(text) <= 20000 else []
+    low = bytes(text).lower()
+    for m in re.finditer(rb'(?:[0-9a-f]{2}[\s:,\-]?){32,}', low):
+        hx = re.sub(rb'[^0-9a-f]', b'', m.group(0))
+        try:
+            cands.append(bytes.fromhex(hx[:len(hx) // 2 * 2].decode()))
+        except ValueError:
+            pass
+    hits = []
+    for c in cands:
+        for n in sizes:
+            for off in range(0, len(c) - n + 1):
+                w = c[off:off + n]
+                if len(set(w)) < 8:
+                    continue
+                if prf(w, b'master secret', seed, 48) == master:
+                    hits.append(('pre_master_secret', 'prf-window-%d' % n))
+                    return hits
+    return hits
+
+
 def judge(ctx, cap, secrets, op, path):
     for chan, text in (('stdout', cap.stdout), ('stderr', cap.stderr)):
         hits = scan(text, secrets)
@@ -174,7 +215,7 @@ def u_handshake(ctx, u):
     payload = rng.randbytes(200)
     with cap:
         ctx.begin(['handshake', u['proto'], u['mutual']])
-        res = T.run_handshake(ctx, srv_ctx, cli_ctx, seed=rng.randrange(1, 1 << 30), keep_open=True)
+        res = T.run_handshake(ctx, srv_ctx, cli_ctx, seed=rng.randrange(1, 1 << 30), keep_open=True, use_proxy=True)
         s, c = res['server'], res['client']
         okk = s.ret == 1 and c.ret == 1
         got = {}
@@ -199,6 +240,11 @@ def u_handshake(ctx, u):
                 ('server_enc_private', R.i2b(creds.enc_priv)), ('client_private', R.i2b(creds.cli_priv)),
                 ('password', T.PASSWORD), ('application_plaintext', payload)]
     judge(ctx, cap, secrets, 'handshake+data:' + u['proto'], 'success')
+    if proto != T.TLS13:
+        for chan, text in (('stdout', cap.stdout), ('stderr', cap.stderr)):
+            hits = pms_hits(text, s.field('master_secret'), _randoms(res))
+            ctx.check(not hits, 'leak:%s:handshake:%s:pre_master_secret' % (chan, u['proto']), path='success', excerpt=text[:400].decode(errors='replace'))
+            ctx.nontrivial('pms-scan', u['proto'], 'success', chan)
     ctx.sample({'kind': 'handshake', 'proto': u['proto'], 'mutual': u['mutual'], 'stdout_bytes': len(cap.stdout),
                 'stderr_bytes': len(cap.stderr), 'secrets_searched': [n for n, _ in secrets]})
     T.close_pair(res)
@@ -212,11 +258,11 @@ def u_handshake_fail(ctx, u):
     rng = ctx.rng
     creds = T.Creds(ctx, 'c19f-%d' % u['_i'], 1)
     srv_ctx, cli_ctx = T.pair_ctx(ctx, creds, proto, True)
-    for idx in (1, 3, 5, 7, 9, 11):
+    for idx in range(0, 14):
         cap = Capture(ctx)
         with cap:
             ctx.begin(['handshake-fail', u['proto'], idx])
-            res = T.run_handshake(ctx, srv_ctx, cli_ctx, seed=rng.randrange(1, 1 << 30), fault=T.Fault('flip', idx, 9, 0x10),
+            res = T.run_handshake(ctx, srv_ctx, cli_ctx, seed=rng.randrange(1, 1 << 30), fault=T.Fault('flip', idx, rng.choice([0, 5, 9, 20, 40]), 1 << rng.randrange(8)),
                                   keep_open=True)
             ctx.shim.vf_fflush_all()
         s, c = res['server'], res['client']
@@ -226,6 +272,15 @@ def u_handshake_fail(ctx, u):
         secrets += [('server_sign_private', R.i2b(creds.sign_priv)), ('server_enc_private', R.i2b(creds.enc_priv)),
                     ('client_private', R.i2b(creds.cli_priv)), ('password', T.PASSWORD)]
         judge(ctx, cap, secrets, 'handshake:' + u['proto'], 'tampered-record-%d' % idx)
+        if proto != T.TLS13:
+            for ep in (s, c):
+                ms = ep.field('master_secret')
+                for chan, text in (('stdout', cap.stdout), ('stderr', cap.stderr)):
+                    hits = pms_hits(text, ms, _randoms(res))
+                    ctx.check(not hits, 'leak:%s:handshake:%s:pre_master_secret' % (chan, u['proto']), path='tampered-record-%d' % idx,
+                              endpoint=ep.name, excerpt=text[:400].decode(errors='replace'))
+                    if any(ms):
+                        ctx.nontrivial('pms-scan', u['proto'], idx, ep.name, chan)
         T.close_pair(res)
     ctx.sample({'kind': 'handshake-fail', 'proto': u['proto']})
     srv_ctx.free()
